@@ -332,6 +332,18 @@ func (g *G) genC01(p *Plan) {
 			ops = append(ops, Op{K: "list", B: c.Buckets[0]})
 		}
 	}
+	if g.chance(0.006) {
+		// an object beyond what a server moves through memory in one piece,
+		// copied onto itself (the way to change an object's metadata) and to
+		// another key
+		b, k := c.Buckets[0], keys[0]
+		big := g.body(32<<20 + g.pick2(0, 1, 4097, 1<<20))
+		ops = []Op{{K: "put", B: b, Key: k, Body: big, Meta: g.meta()},
+			{K: "copy", B: b, Key: k, SrcB: b, SrcKey: k, Meta: g.meta()},
+			{K: g.pick("get", "head"), B: b, Key: k},
+			{K: "copy", B: b, Key: "copy-of-big", SrcB: b, SrcKey: k},
+			{K: "get", B: b, Key: "copy-of-big"}}
+	}
 	p.Clients = [][]Op{ops}
 	c.Policy = simrt.Policy{Kind: "seq"}
 }
